@@ -1329,6 +1329,118 @@ def run_container_constraints(rep, rng, thorough):
                     rep.oracle_failures.append(bad)
 
 
+# ----------------------------------------------------------------------------- overlapping terms
+
+OVERLAP_FORMS = ["x[0]+a@x", "a@x+x[0]", "a@x+b@x", "x.sum()+a@x", "a@x+x.sum()", "2*x[1]-a@x", "a@x-2*x[1]", "s+a@x+s",
+                 "x[0]+x[0]+a@x", "a@x-b@x+x[0]", "(a@x)*2+x[0]/2", "a2@x[0:2]+b2@x[1:3]", "x[0:2].sum()+x[1:3].sum()",
+                 "a@x+b@x[::-1]", "x[::2].sum()+a@x", "x[n-1]+a@x+x.sum()", "-(a@x)+x[0]", "a@x+b@(x+1)", "(a+b)@x+a@x",
+                 "x[0]+a@x | obj overlaps too"]
+
+
+def overlap_case(data):
+    """one expression whose terms touch the SAME variables, in every order (a scalar element before / after a
+    LinearCombination, two LinearCombinations, VectorSum + LinearCombination, overlapping views): the LP row has to
+    ACCUMULATE the contributions.  Truth = NumPy on the returned values."""
+    from optyx import Problem, Variable, VectorVariable
+
+    n = data["n"]
+    x = VectorVariable("x", n, lb=0.0, ub=10.0)
+    s = Variable("s", lb=0.0, ub=4.0)
+    a, b = np.array(data["a"], dtype=float), np.array(data["b"], dtype=float)
+    a2, b2 = a[:2].copy(), b[:2].copy()
+    X = lambda v: np.array([v.get(f"x[{i}]", np.nan) for i in range(n)])  # noqa: E731
+    S = lambda v: v.get("s", 0.0)  # noqa: E731
+    forms = {
+        "x[0]+a@x": (lambda: x[0] + a @ x, lambda v: X(v)[0] + a @ X(v)),
+        "a@x+x[0]": (lambda: a @ x + x[0], lambda v: a @ X(v) + X(v)[0]),
+        "a@x+b@x": (lambda: a @ x + b @ x, lambda v: (a + b) @ X(v)),
+        "x.sum()+a@x": (lambda: x.sum() + a @ x, lambda v: X(v).sum() + a @ X(v)),
+        "a@x+x.sum()": (lambda: a @ x + x.sum(), lambda v: X(v).sum() + a @ X(v)),
+        "2*x[1]-a@x": (lambda: 2 * x[1] - a @ x, lambda v: 2 * X(v)[1] - a @ X(v)),
+        "a@x-2*x[1]": (lambda: a @ x - 2 * x[1], lambda v: a @ X(v) - 2 * X(v)[1]),
+        "s+a@x+s": (lambda: s + a @ x + s, lambda v: 2 * S(v) + a @ X(v)),
+        "x[0]+x[0]+a@x": (lambda: x[0] + x[0] + a @ x, lambda v: 2 * X(v)[0] + a @ X(v)),
+        "a@x-b@x+x[0]": (lambda: a @ x - b @ x + x[0], lambda v: (a - b) @ X(v) + X(v)[0]),
+        "(a@x)*2+x[0]/2": (lambda: (a @ x) * 2 + x[0] / 2, lambda v: 2 * (a @ X(v)) + X(v)[0] / 2),
+        "a2@x[0:2]+b2@x[1:3]": (lambda: a2 @ x[0:2] + b2 @ x[1:3], lambda v: a2 @ X(v)[0:2] + b2 @ X(v)[1:3]),
+        "x[0:2].sum()+x[1:3].sum()": (lambda: x[0:2].sum() + x[1:3].sum(), lambda v: X(v)[0:2].sum() + X(v)[1:3].sum()),
+        "a@x+b@x[::-1]": (lambda: a @ x + b @ x[::-1], lambda v: a @ X(v) + b @ X(v)[::-1]),
+        "x[::2].sum()+a@x": (lambda: x[::2].sum() + a @ x, lambda v: X(v)[::2].sum() + a @ X(v)),
+        "x[n-1]+a@x+x.sum()": (lambda: x[n - 1] + a @ x + x.sum(), lambda v: X(v)[n - 1] + a @ X(v) + X(v).sum()),
+        "-(a@x)+x[0]": (lambda: -(a @ x) + x[0], lambda v: -(a @ X(v)) + X(v)[0]),
+        "a@x+b@(x+1)": (lambda: a @ x + b @ (x + 1.0), lambda v: a @ X(v) + b @ (X(v) + 1.0)),
+        "(a+b)@x+a@x": (lambda: (a + b) @ x + a @ x, lambda v: (2 * a + b) @ X(v)),
+        "x[0]+a@x | obj overlaps too": (lambda: x[0] + a @ x, lambda v: X(v)[0] + a @ X(v)),
+    }
+    build, truth = forms[data["form"]]
+    lhs = build()
+    r = data["rhs"]
+    P = Problem()
+    w = np.array(data["w"], dtype=float)
+    obj = w @ x + s if "obj overlaps" not in data["form"] else x[0] + w @ x + x.sum() + s
+    P.maximize(obj) if data["objsense"] == "max" else P.minimize(obj)
+    P.subject_to(lhs <= r if data["sense"] == "<=" else lhs >= r if data["sense"] == ">=" else lhs.eq(r))
+    if data.get("pin") is not None:
+        P.subject_to(x[0] >= data["pin"])
+    return P, truth
+
+
+def overlap_check(data):
+    try:
+        P, truth = overlap_case(data)
+    except Exception as e:  # noqa: BLE001
+        return None, "unbuildable:" + type(e).__name__
+    with warnings.catch_warnings(), np.errstate(all="ignore"):
+        warnings.simplefilter("ignore")
+        try:
+            sol = P.solve(method=data["method"])
+        except Exception as e:  # noqa: BLE001
+            return None, "raise:" + type(e).__name__
+    if sol.status.name != "OPTIMAL":
+        return None, sol.status.name
+    g = float(truth(sol.values)) - data["rhs"]
+    sense = data["sense"]
+    viol = max(0.0, g) if sense == "<=" else max(0.0, -g) if sense == ">=" else abs(g)
+    if not viol <= 1e-6 + RTOL * max(1.0, abs(g)) + 1e-7:
+        return {"what": "constraint with overlapping terms violated at the returned point (NumPy on the values)",
+                "lhs_minus_rhs": g, "values": dict(sol.values)}, "OPTIMAL"
+    if data.get("pin") is not None and sol.values.get("x[0]", 0.0) < data["pin"] - 3e-6:
+        return {"what": "pinning constraint violated", "values": dict(sol.values)}, "OPTIMAL"
+    bad = feasibility_report(P, sol.values, None, slack=1e-7)
+    if bad is not None:
+        bad["values"] = dict(sol.values)
+    return bad, "OPTIMAL"
+
+
+def run_overlapping_terms(rep, rng, thorough):
+    methods = ["auto"] + LP_METHODS + ["SLSQP"]
+    i = 0
+    for form in OVERLAP_FORMS:
+        for sense in ("<=", ">=", "=="):
+            for rk in ("binding", "slack", "infeasible-with-pin"):
+                for method in methods:
+                    i += 1
+                    if not thorough and (method == "SLSQP" and i % 4 or method in ("highs", "highs-ipm") and i % 2):
+                        continue
+                    n = rng.choice([3, 3, 4, 5, 33 if thorough else 6])
+                    a = [rng.choice([1.0, 1.0, 2.0, 0.5, 3.0, -1.0]) for _ in range(n)]
+                    b = [rng.choice([1.0, 2.0, -0.5, 1.5]) for _ in range(n)]
+                    rhs = {"binding": 6.0, "slack": 400.0 if sense != ">=" else -400.0, "infeasible-with-pin": 6.0}[rk]
+                    data = {"form": form, "n": n, "a": a, "b": b, "w": [rng.choice([1.0, 2.0, 0.5]) for _ in range(n)],
+                            "sense": sense, "rhs": rhs if sense != "==" or rk != "slack" else 7.5,
+                            "objsense": "max" if sense != ">=" else "min", "method": method,
+                            "pin": 4.0 if rk == "infeasible-with-pin" else None}
+                    bad, status = overlap_check(data)
+                    rep.evaluations += 1
+                    tag = f"overlap:{rk}:{status}"
+                    rep.histogram[tag] = rep.histogram.get(tag, 0) + 1
+                    if status == "OPTIMAL":
+                        rep.nontrivial.add(hash(("ovl", str(data))))
+                    if bad is not None:
+                        bad.update({"kind_of_case": "overlap", "data": data})
+                        rep.oracle_failures.append(bad)
+
+
 # ----------------------------------------------------------------------------- histories: edits between solves
 
 
@@ -1499,6 +1611,7 @@ def run(ctx) -> core.Report:
     run_operator_alphabet(rep, rng, thorough)
     run_magnitudes_types(rep, rng, thorough)
     run_container_constraints(rep, rng, thorough)
+    run_overlapping_terms(rep, rng, thorough)
     run_feasibility_histories(rep, rng, thorough)
     run_real_solves(rep, rng, 700 if thorough else 90, check_feasible)
     return rep
@@ -1541,6 +1654,9 @@ def search(ctx, rep):
     run_degenerate_rows(r2, True)
     if r2.oracle_failures:
         return r2.oracle_failures[0]
+    run_overlapping_terms(r2, rng, False)
+    if r2.oracle_failures:
+        return r2.oracle_failures[0]
     run_operator_alphabet(r2, rng, False)
     if r2.oracle_failures:
         return r2.oracle_failures[0]
@@ -1571,8 +1687,9 @@ def replay(payload) -> bool:
         bad = feasibility_report(P, sol.values, c["tol"])
         print("feasibility:", bad)
         return bad is None
-    if f.get("kind_of_case") in ("magnitude", "container", "fhistory"):
-        fn = {"magnitude": magnitude_case, "container": container_check, "fhistory": feasibility_history}[f["kind_of_case"]]
+    if f.get("kind_of_case") in ("magnitude", "container", "fhistory", "overlap"):
+        fn = {"magnitude": magnitude_case, "container": container_check, "fhistory": feasibility_history,
+              "overlap": overlap_check}[f["kind_of_case"]]
         bad, status = fn(f["data"])
         print(status, bad)
         return bad is None
